@@ -31,17 +31,22 @@ def extra_orders(x, n_order):
 
 
 class IntOrder(OrderParameter):
-    def __init__(self):
+    def __init__(self, order_eps=0.0):
         super().__init__(description="lattice position", velocity=False)
+        # optional offset of the progress coordinate (0.0: the integers themselves); a value below 5e-7
+        # is lost when order.txt is written with six decimals (C08: orders a hair off an interface)
+        self.order_eps = float(order_eps)
 
     def calculate(self, system):
-        return [float(system.pos[0][0])]
+        x = float(system.pos[0][0])
+        return [x + self.order_eps] if self.order_eps else [x]
 
 
 class LatticeEngine(EngineBase):
     """+-1 walk.  `wall`: reflecting wall position (x never goes below it)."""
 
-    def __init__(self, wall=-4, timestep=1.0, subcycles=1, temperature=1.0, input_path=".", sleep=0.0, n_order=1):
+    def __init__(self, wall=-4, timestep=1.0, subcycles=1, temperature=1.0, input_path=".", sleep=0.0, n_order=1,
+                 order_eps=0.0):
         super().__init__("lattice walk", timestep, subcycles)
         self.ext = "lat"
         self.wall = int(wall)
@@ -51,9 +56,13 @@ class LatticeEngine(EngineBase):
         self.name = "lattice"
         self.sleep = sleep
         self.n_order = int(n_order)     # number of order-parameter values per frame (progress coordinate + extra columns)
+        self.order_eps = float(order_eps)   # added to the progress coordinate (default 0.0: nothing changes)
 
     def order_of(self, x):
-        return extra_orders(x, self.n_order)
+        orders = extra_orders(x, self.n_order)
+        if self.order_eps:
+            orders[0] += self.order_eps
+        return orders
 
     # the plug-in loader requires a callable attribute `step`
     def step(self, x):
